@@ -41,12 +41,14 @@ def queries(tier, seed, build):
                              timeout=1500))
     # (3) minimal salt for every accepted nrbytes / output_size: the C13 harness with MIN_OUT_LEN
     from .C13 import queries as c13q
-    for q in c13q("quick", seed, build):
+    for q in c13q(tier, seed, build):
         if not q.name.endswith("-end") and not q.name.endswith("-base"):
             continue
         nm = q.name[len("c13-"):].rsplit("-", 1)[0]
         if nm in ("unknown", "bcrypt_x"):
             continue
+        if tier == "quick" and nm in ("yescrypt", "gost_yescrypt", "scrypt", "default", "sha256crypt", "bcrypt_a", "bcrypt_y"):
+            continue       # thorough tier (same code paths as sha512crypt / bcrypt; yescrypt family is slow)
         q.name = "c12-min-" + q.name[len("c13-"):]
         q.defs = list(q.defs) + ["MIN_OUT_LEN=%d" % MINLEN.get(nm, 3)]
         qs.append(q)
